@@ -246,6 +246,20 @@ Incr == /\ Is("Incr")
            fails' = (IF Ev.val # exp THEN {F("C09", <<"incremental value", Ev.axis, Ev.step, Ev.val, exp>>, "incremental")} ELSE {})
         /\ l' = l + 1 /\ UNCHANGED <<run, scen, params, base, objs, call, hist, expect>>
 
+\* C02 / C04 / C05: one optimiser pass of detailed placement driven directly (after a successful legalization of the object)
+PassEv == /\ Is("Pass") /\ ~call.active
+          /\ LET o == Ev.obj c == Ev.circ prev == objs[Ev.obj] leg == hist[Ev.obj]["legalize"].result IN
+             /\ fails' = IF ~IsFinite(c) THEN FiniteFails(c) ELSE
+                            FrameFails(c, FALSE) \cup WlFails(c) \cup LegalFails("C02", c) \cup OrientFails(leg, c) \cup
+                            (IF Ev.wl > Hpwl(prev)
+                             THEN {F("C05", <<"wirelength increased over an optimiser pass", Ev.op, Ev.a1, Ev.a2, Hpwl(prev), Ev.wl>>, WlSignature(leg, prev, c))} ELSE {}) \cup
+                            (IF ~SamePlace(leg, c, Ignored(c)) THEN {F("C02", <<"multi-row cell moved by an optimiser pass", Ev.op>>, "ignored-moved")} ELSE {})
+             /\ objs' = [objs EXCEPT ![o] = c]
+          /\ l' = l + 1 /\ UNCHANGED <<run, scen, params, base, call, hist, expect>>
+PassThrow == /\ Is("PassThrow") /\ ~call.active
+             /\ fails' = {F("C02", <<"an optimiser pass failed on a legalized placement", Ev.what>>, "pass-throw")}
+             /\ l' = l + 1 /\ UNCHANGED <<run, scen, params, base, objs, call, hist, expect>>
+
 \* C20: export to ISPD/Bookshelf files and re-read with the package's own reader: the identity on cell sizes, fixed flags,
 \* positions, orientations, net connectivity, pin offsets, row geometry and row orientation (hence on the wirelength)
 Observable(c) == [cells |-> [i \in 1..Len(c.cells) |-> [w |-> c.cells[i].w, h |-> c.cells[i].h, f |-> c.cells[i].f,
@@ -381,7 +395,7 @@ ParamCheck == /\ Is("ParamCheck")
               /\ fails' = ParamCheckFails(Ev)
               /\ l' = l + 1 /\ UNCHANGED <<run, scen, params, base, objs, call, hist, expect>>
 
-Next == RoundTrip \/ ExportEv \/ BindEv \/ ExpandEv \/ GridEv \/ SolveEv \/ Schedule \/ HarnessError \/ ExpectReject \/ ParamsCtor \/ ParamCheck \/ Rebase \/ FreeEv \/ Incr \/ Reset \/ Begin \/ Cb \/ CbThrow \/ EndReturn \/ EndThrow \/ BadFate \/ Setter
+Next == PassEv \/ PassThrow \/ RoundTrip \/ ExportEv \/ BindEv \/ ExpandEv \/ GridEv \/ SolveEv \/ Schedule \/ HarnessError \/ ExpectReject \/ ParamsCtor \/ ParamCheck \/ Rebase \/ FreeEv \/ Incr \/ Reset \/ Begin \/ Cb \/ CbThrow \/ EndReturn \/ EndThrow \/ BadFate \/ Setter
 Spec == Init /\ [][Next]_vars
 
 ---------------------------------------------------------------------------
